@@ -702,6 +702,37 @@ func RunC07(d *Driver) *Report {
 			r.Disagree(Case{Stream: "layout-model", Input: src, Real: out, Model: ans, Note: "items of the formatted literal (e c n) against Model/Layout.lean fmtM on " + items})
 		}
 	}
+	tightOperand := func(src string) {
+		if _, perr, pp := ParseSrc(src); perr != "" || pp != "" {
+			r.Disagree(Case{Stream: "tight-operands", Input: src, Real: "rejected: " + trunc(perr+pp, 300), Note: "harness program should be accepted"})
+			return
+		}
+		canon("tight-operands", src, "")
+	}
+	// operators glued to parenthesised plain operands where whitespace separates arguments and elements: the only
+	// thing between `(p)and(q)` and the name `pandq` is the parentheses
+	for _, tc := range []struct {
+		pre, l, r string
+		ops       []string
+	}{
+		{"p := true\nq := false\n", "p", "q", []string{"and", "or", "==", "!="}},
+		{"p := true\nq := false\n", "true", "q", []string{"and", "or"}},
+		{"p := 1\nq := 2\n", "p", "q", []string{"+", "-", "*", "/", "%", "<", "<=", ">", ">=", "==", "!="}},
+		{"p := 1\nq := 2\n", "p", "2", []string{"+", "-", "*", "<"}},
+		{"p := \"a\"\nq := \"b\"\n", "p", "q", []string{"+", "<", "=="}},
+		{"p := \"a\"\nq := \"b\"\n", "\"a\"", "q", []string{"+", "=="}},
+	} {
+		for _, op := range tc.ops {
+			e := "(" + tc.l + ")" + op + "(" + tc.r + ")"
+			for _, body := range []string{"print " + e + "\n", "print 0 " + e + " " + e + "\n", "print [" + e + "]\n", "x := [" + e + " " + e + "]\nprint x\n", "x := " + e + "\nprint x\n",
+				"print {k:" + e + "}\n", "print (" + e + ")" + "\n", "print [" + e + "][0]\n", "if (" + e + ") == (" + e + ")\n    print 1\nend\n"} {
+				tightOperand(tc.pre + body + "print p q\n")
+			}
+		}
+	}
+	for _, body := range []string{"print -(p)\n", "print [-(p) -(1)]\n", "print !(b)\n", "print [!(b) !(true)]\n", "print (p)-(1) -(p)\n", "print !(b)and(b)\n", "print (s)[0] (s)[0:1]\n", "print [(s)[0]] (a)[0]\n", "print (m).k [(m).k]\n"} {
+		tightOperand("p := 1\nb := true\ns := \"ab\"\na := [1]\nm := {k:1}\n" + body + "print p b s a m\n")
+	}
 	for i, b := range bases {
 		f := canon("base", b, "")
 		if f == "" {
